@@ -16,7 +16,8 @@ let rec int_of_pos = function XH -> 1 | XO p -> 2 * int_of_pos p | XI p -> 2 * i
 let int_of_n = function N0 -> 0 | Npos p -> int_of_pos p
 let str_out l = if l = [] then "-" else String.concat "," (List.map (fun c -> string_of_int (int_of_n c)) l)
 let str_in x = if x = "-" then [] else List.map (fun c -> n_of_int (int_of_string c)) (String.split_on_char ',' x)
-let opt_out = function None -> "N" | Some v -> "=" ^ str_out v
+let opt_out = function Crash -> "N" | Ok v -> "=" ^ str_out v
+let optopt_out = function Crash -> "N" | Ok None -> "NONE" | Ok (Some v) -> "=" ^ str_out v
 
 exception Bad
 
@@ -93,8 +94,8 @@ let handle parts =
   | ["Q"; "F"; v] -> if forbidden (str_in v) then "1" else "0"
   | ["Q"; "V"; u] -> opt_out (urivalue (str_in u))
   | ["Q"; "K"; u] -> opt_out (uritokenvalue (str_in u))
-  | ["Q"; "G"; u] -> opt_out (stringtokenvalue (str_in u))
-  | ["Q"; "W"; u] -> opt_out (stringvalue (str_in u))
+  | ["Q"; "G"; u] -> optopt_out (stringtokenvalue (Some { ty = []; raw = []; val0 = str_in u; line = O; col = O }))
+  | ["Q"; "W"; u] -> opt_out (hstringvalue (str_in u))
   | ["Q"; "T"; v; follow] ->
     (match tokenize true false (huri (str_in v) @ str_in follow) with
      | Some (t :: _) -> Printf.sprintf "%s|%s|%s|%s" (str_out t.ty) (str_out t.val0) (opt_out (urivalue t.val0)) (opt_out (uritokenvalue t.val0))
